@@ -129,6 +129,11 @@ def gen(rng, tier):
         fields = [dotted, nested, extra] if rng.chance(0.6) else [nested, dotted, extra]
         if rng.chance(0.3):
             fields.insert(rng.below(3), {"n": "Port", "tag": ".".join(names[:1] + ["port"]), "v": "", "ty": TG.T("uint16")})
+        if rng.chance(0.35):
+            # a list field and dotted siblings below its name: one node holds the list and the named settings
+            fields = [{"n": "Hosts", "tag": "srv", "v": "", "ty": TG.T("slice", e=TG.T(rng.pick(["string", "int", "uint16"])))},
+                      {"n": "Name", "tag": "srv.name", "v": "", "ty": TG.T("string")}, {"n": "Port", "tag": "srv.port", "v": "", "ty": TG.T("uint16")}, extra]
+            fields = rng.shuffle(fields)
         ty = TG.T("struct", f=fields)
         yield {"k": "roundtrip", "ty": ty, "val": rt_value(rng, ty), "opts": [opt("PathSep", ".")], "byPtr": rng.chance(0.3), "_tag": "roundtrip/dotted-tags",
                "_nt": True, "_sig": "dotted|%d|%s" % (depth, fields[0]["n"])}
